@@ -3,19 +3,31 @@ package c14
 import (
 	"fmt"
 	"os"
+	"runtime"
+	"sort"
 	"testing"
 	"time"
 )
 
-// TestC14Debug prints the fault-free runs (diagnostic; only with C14_DEBUG=1).
+// Diagnostics, not part of the check: run with C14_DEBUG=1 (or C14_DEBUG=3h for the long horizon).
+
+func debugHorizon(t *testing.T) time.Duration {
+	t.Helper()
+	switch os.Getenv("C14_DEBUG") {
+	case "":
+		t.Skip("set C14_DEBUG=1")
+	case "3h":
+		return 3 * time.Hour
+	}
+
+	return 75 * time.Minute
+}
+
+// TestC14Debug prints the fault-free run of every configuration x pattern (C14_TX=1: with the transaction list)
+// and its wall time.
 func TestC14Debug(t *testing.T) {
-	if os.Getenv("C14_DEBUG") == "" {
-		t.Skip()
-	}
-	h := 75 * time.Minute
-	if os.Getenv("C14_DEBUG") == "3h" {
-		h = 3 * time.Hour
-	}
+	h := debugHorizon(t)
+	runtime.GOMAXPROCS(1)
 	for _, cb := range combos() {
 		t0 := time.Now()
 		res := runOnce(t, scenario{Cfg: cb.cfg, Pattern: cb.pat, Horizon: h})
@@ -27,6 +39,34 @@ func TestC14Debug(t *testing.T) {
 			for _, s := range txStrings(res.Txs) {
 				fmt.Println("   ", s)
 			}
+		}
+	}
+}
+
+// TestC14Determinism repeats every fault-free run 40 times and compares the SET of labelled transactions
+// (identity, time, transmissions, answer): the enumeration relies on it being reproducible.
+func TestC14Determinism(t *testing.T) {
+	h := debugHorizon(t)
+	runtime.GOMAXPROCS(1)
+	for _, cb := range combos() {
+		var ref []string
+		diff := 0
+		for i := range 40 {
+			res := runOnce(t, scenario{Cfg: cb.cfg, Pattern: cb.pat, Horizon: h})
+			s := txStrings(res.Txs)
+			sort.Strings(s)
+			if i == 0 {
+				ref = s
+
+				continue
+			}
+			if fmt.Sprint(s) != fmt.Sprint(ref) {
+				diff++
+			}
+		}
+		fmt.Printf("%s %s: %d/39 runs differ (as sets) from the first\n", cb.cfg.Name, cb.pat, diff)
+		if diff > 0 {
+			t.Errorf("%s %s: transaction set not reproducible", cb.cfg.Name, cb.pat)
 		}
 	}
 }
